@@ -57,7 +57,23 @@ def rewind_biased(rng, name, nrules=None):
     return Def(name, [('Init', rules)], tags=['rewind'])
 
 
-def stale_family(rng, name, eof=False):
+def step_out_family():
+    """a complete shorter rule and a longer rule that leaves the accepting state by one step into a state that does
+    not accept yet, then fails: the step is a character / a range / a class of several ranges / `_`, the accepting state
+    is reached by one character or by a loop, the state after the step continues by a character or a range"""
+    out = []
+    k = 0
+    steps = [ch('x'), cs(('p', 't')), cs(('p', 'q'), ('s', 't'), 'v'), ANY]
+    for head in (ch('a'), plus(cs(('0', '9'))), plus(ch('a'))):
+        for step in steps:
+            for last in (ch('y'), cs(('p', 't'))):
+                rules = [Rule(head, 'tok'), Rule(cat(head, step, last), 'tok'), Rule(ch(' '), 'skip')]
+                out.append(Def('so%d' % k, [('Init', rules)], tags=['rewind', 'stepout']))
+                k += 1
+    return out
+
+
+def stale_family(rng, name, eof=False, qkinds=None):
     """shapes around the saved-match life cycle: a shorter candidate P is saved, a longer rule Q ends
     in a dead-end accept whose action continues / skips / switches / returns, and a later scan fails
     in a state that rewinds although nothing was accepted on the way (a join of an accepting and a
@@ -65,18 +81,18 @@ def stale_family(rng, name, eof=False):
     cs_ = ['a', 'b', 'c', 'd', 'x', 'w', 'y', 'z', 'm']
     rng.shuffle(cs_)
     p, q, x, w, y, z, m = cs_[:7]
-    qkind = rng.choice(['skip', 'cont', 'rcont', 'tok', 'ret', 'sw', 'dyn'])
-    two_sets = qkind == 'sw' or rng.random() < 0.3
+    qkind = rng.choice(qkinds or ['skip', 'cont', 'rcont', 'tok', 'ret', 'sw', 'dyn'])
+    two_sets = qkind in ('sw', 'swret') or rng.random() < 0.3
     P = Rule(ch(p), rng.choice(['tok', 'ret']))
-    if qkind == 'sw':
-        Q = Rule(st(p + q), 'sw', target='R1')
+    if qkind in ('sw', 'swret'):
+        Q = Rule(st(p + q), qkind, target='R1')
     elif qkind == 'dyn':
         Q = Rule(st(p + q), 'dyn', choices=[('cont', None), ('ret', None), ('rcont', None)])
     else:
         Q = Rule(st(p + q), qkind)
     X = Rule(ch(x), 'tok')
-    if rng.random() < 0.7:
-        J = Rule(cat(alt(ch(x), ch(w)), st(y + z) if rng.random() < 0.6 else ch(y)), 'tok')
+    if rng.random() < 0.7 or qkinds:
+        J = Rule(cat(alt(ch(x), ch(w)), st(y + z) if (rng.random() < 0.6 or qkinds) else ch(y)), 'tok')
         tail = [X, J]
     else:
         # accepting state with transitions whose only accept has a right context
@@ -87,7 +103,7 @@ def stale_family(rng, name, eof=False):
     if eof:
         eof_rules = [Rule(EOFR, rng.choice(['tok', 'ret']))] if rng.random() < 0.7 else [Rule(cat(ch(x), EOFR), 'tok')]
     if two_sets:
-        init = [P, Q] + ([] if qkind == 'sw' else tail) + eof_rules
+        init = [P, Q] + ([] if qkind in ('sw', 'swret') else tail) + eof_rules
         rng.shuffle(init)
         r1 = list(tail) + [Rule(ch(q), 'swret', target='Init')]
         rng.shuffle(r1)
@@ -310,6 +326,8 @@ def select(prop, thorough, rng):
         defs += [rewind_biased(rng, 'rw%d' % j) for j in range(nrand * 2)]
         defs += [F.rand_def(rng, 'r%d' % j, nsets=1, kinds=['tok', 'tok', 'ret', 'skip'], tags=['C01']) for j in range(nrand // 2)]
         defs += [stale_family(rng, 'st%d' % j) for j in range(nrand // 2 + 3)]
+        so = step_out_family()
+        defs += so if thorough else so[1::2]
         ov = [d for d in overlap_family() if 'C01' in d.tags]
         defs += ov if thorough else ov[::3]
         defs += [ctx_priority_family(rng, 'cp%d' % j) for j in range(nrand // 2)]
@@ -327,7 +345,7 @@ def select(prop, thorough, rng):
         defs += es if thorough else es[:4]
         ll = local_let_family(rng)
         defs += ll if thorough else ll[4:8]
-        defs += [stale_family(rng, 'st%d' % j) for j in range(nrand // 3)]
+        defs += [stale_family(rng, 'st%d' % j, qkinds=(['sw', 'swret'] if j % 2 == 0 else None)) for j in range(nrand // 3 + 2)]
     elif prop == 'C04':
         defs = pick('C04')
         defs += [F.rand_def(rng, 'cx%d' % j, nsets=rng.choice([1, 1, 2]), ctx_p=0.6, eof_p=0.05, kinds=['tok', 'tok', 'ret', 'skip', 'cont'], maxrules=4, depth=1, tags=['C04']) for j in range(nrand + nrand // 2)]
@@ -347,12 +365,16 @@ def select(prop, thorough, rng):
         defs += [F.rand_def(rng, 'fe%d' % j, nsets=rng.choice([1, 2]), ctx_p=0.15, kinds=['fok', 'ferr', 'ferr', 'fcont', 'tok', 'skip', 'fok'], maxrules=4, depth=2, tags=['C07']) for j in range(nrand)]
         defs += [fdyn_def(rng, 'fd%d' % j) for j in range(nrand // 3)]
         defs += [stale_family(rng, 'st%d' % j, eof=(j % 2 == 0)) for j in range(nrand // 3)]
+        # "a lexeme that has a valid (possibly shorter) match is never reported as an error": rewind shapes
+        so = step_out_family()
+        defs += so if thorough else so[::2]
+        defs += [rewind_biased(rng, 'rw%d' % j) for j in range(nrand // 2)]
     elif prop == 'C08':
         defs = pick('C08')
         kinds = ['tok', 'ret', 'skip', 'sw', 'sw', 'swret', 'cont']
         defs += [F.rand_def(rng, 'rc%d' % j, nsets=rng.choice([2, 2, 3]), kinds=kinds, maxrules=3, depth=1, tags=['C08'], empty_p=0.2) for j in range(nrand)]
         defs += [dyn_def(rng, 'dr%d' % j) for j in range(nrand // 3)]
-        defs += [stale_family(rng, 'st%d' % j) for j in range(nrand // 3)]
+        defs += [stale_family(rng, 'st%d' % j, qkinds=(['sw', 'swret'] if j % 2 == 0 else None)) for j in range(nrand // 3 + 2)]
     elif prop == 'C09':
         defs = list(cur)
         defs += [F.rand_def(rng, 'pg%d' % j, ctx_p=0.2, eof_p=0.15, tags=['C09']) for j in range(nrand)]
@@ -432,6 +454,15 @@ def builtin_defs(thorough):
                 rules = [r_trim, r_full] if order == 0 else [r_full, r_trim]
                 out.append(Def('bi_tt%d' % k, [('Init', rules + [Rule(ANY, 'tok')])], tags=['builtin', 'C13'], nmax=2))
                 k += 1
+    # unions of classes under `#`: a range of the left operand of `|` overlaps several ranges of the right one
+    k = 0
+    for A_, B_, C_ in ((bi('ascii_graphic'), bi('ascii_alphanumeric'), cs(('a', 'c'), 'x', '5')),
+                       (bi('ascii_alphanumeric'), bi('ascii_graphic'), cs(('a', 'c'), 'x', '5')),
+                       (cs(('a', 'z')), bi('ascii_hexdigit'), cs('b', 'e', '3')),
+                       (bi('ascii_graphic'), bi('ascii_punctuation'), cs('!', '/', '~', '@')),
+                       (cs(('0', 'z')), bi('ascii_alphanumeric'), cs('A', 'Z', 'a', '9'))):
+        out.append(Def('bi_union%d' % k, [('Init', [Rule(diff(alt(A_, B_), C_), 'tok'), Rule(ANY, 'tok')])], tags=['builtin', 'C13'], nmax=1))
+        k += 1
     out.append(Def('bi_combo1', [('Init', [Rule(diff(bi('ascii_alphanumeric'), cs(('a', 'f'), '0')), 'tok'), Rule(alt(bi('ascii_digit'), bi('ascii_punctuation')), 'tok'), Rule(ANY, 'tok')])], tags=['builtin', 'C13'], nmax=1))
     out.append(Def('bi_combo2', [('Init', [Rule(diff(bi('numeric'), bi('ascii_digit')), 'tok'), Rule(cat(bi('ascii_uppercase'), bi('ascii_lowercase')), 'tok'), Rule(ANY, 'tok')])], tags=['builtin', 'C13'], nmax=2))
     out.append(Def('bi_ws_ctx', [('Init', [Rule(ch('a'), 'tok', ctx=bi('whitespace')), Rule(ch('a'), 'tok', ctx=bi('numeric')), Rule(ANY, 'tok')])], tags=['builtin', 'C13'], nmax=2))
